@@ -28,6 +28,8 @@ FRESH_METHODS = {'copy', 'astype', 'flatten', 'repeat', 'take', 'tolist', 'cumsu
                  'item', 'argsort', 'nonzero', 'compress', 'choose', 'dot', 'conj', 'var', 'prod', 'any', 'all', 'argmin', 'argmax'}
 MUTATING_METHODS = {'sort', 'fill', 'put', 'resize', 'itemset', 'partition', 'byteswap', 'setfield', 'append', 'extend', 'insert',
                     'pop', 'remove', 'clear', 'reverse', 'update'}
+# methods that change which items a list / dict / set holds, not the items themselves
+CONTAINER_ONLY_METHODS = {'append', 'extend', 'insert', 'pop', 'remove', 'clear', 'reverse', 'update'}
 MUTATING_FUNCS = {'numpy.put': 0, 'numpy.copyto': 0, 'numpy.place': 0, 'numpy.putmask': 0, 'numpy.fill_diagonal': 0,
                   'numpy.put_along_axis': 0, 'numpy.random.shuffle': 0}
 
@@ -270,6 +272,12 @@ class AliasAnalysis:
             env[t.id] = v if isinstance(v, frozenset) else frozenset(_flat(v))
             if isinstance(v, tuple):
                 env['$tuple:' + t.id] = v
+            # a name bound to a list / dict / set display or comprehension holds a container made here: adding or removing items changes that
+            # container, not the memory of its items
+            if isinstance(value_node, (ast.List, ast.ListComp, ast.Dict, ast.DictComp, ast.Set, ast.SetComp)):
+                env['$container:' + t.id] = frozenset({FRESH})
+            else:
+                env.pop('$container:' + t.id, None)
             return env
         if isinstance(t, (ast.Tuple, ast.List)):
             if isinstance(v, tuple) and len(v) == len(t.elts):
@@ -440,6 +448,8 @@ class AliasAnalysis:
             recv = self._expr(f.value, env, ctx)
             recv_o = frozenset(_flat(recv))
             if f.attr in MUTATING_METHODS:
+                if f.attr in CONTAINER_ONLY_METHODS and isinstance(f.value, ast.Name) and ('$container:' + f.value.id) in env:
+                    return frozenset({FRESH})
                 self._record_write(recv_o, ctx, e, f".{f.attr}()")
                 return frozenset({FRESH})
             # method of a repo class?  (self.m(), obj.m())
